@@ -195,15 +195,15 @@ MANIFEST = {
     "design_ref": "DESIGN.md §3 C20",
     "text": (
         "Proof. Kallen/Kibble/third-Mandelstam/indicator are re-translated from the working tree into Lean on every run "
-        "and 13 theorems are re-checked by the kernel: total symmetry and factorisation of the Kallen function (all reals), "
+        "and 16 theorems are re-checked by the kernel: total symmetry and factorisation of the Kallen function (all reals), "
         "sigma3 identity for every triple of four-momenta, Kibble = -64 m0^4 |p2 x p3|^2 <= 0 and indicator = 1 for every "
-        "rest-frame event, Kibble = 16 m0^2 sigma1 (sigma2 - sigma2min)(sigma2 - sigma2max) and hence indicator = 1 iff sigma2 "
+        "rest-frame event, and in ANY frame Kibble = 64 (H23^2 - H22 H33) <= 0 (reversed Cauchy-Schwarz for a time-like total "
+        "momentum, proved from components) with indicator = 1 for every three four-momenta with time-like sum; Kibble = 16 m0^2 sigma1 (sigma2 - sigma2min)(sigma2 - sigma2max) and hence indicator = 1 iff sigma2 "
         "lies between the PDG limits for every point of the bounding box (sigma1 > 0). Unbounded in all real arguments."
     ),
     "level_note": (
         "Trusted: Lean kernel + Mathlib (axioms propext, Classical.choice, Quot.sound); the sympy->Lean translator "
-        "(validated each run: Lean Float twin vs numpy on the real lambdified code); events are taken in the parent rest "
-        "frame (invariants are Lorentz scalars); floating-point evaluation of the lambdified code is executed, not modelled; "
+        "(validated each run: Lean Float twin vs numpy on the real lambdified code); floating-point evaluation of the lambdified code is executed, not modelled; "
         "the degenerate box corner sigma1 = 0 (m2 = m3 = 0) is excluded."
     ),
 }
